@@ -350,8 +350,9 @@ def _paths(case, j, ctx):
             except Exception as exc:  # noqa: BLE001
                 _viol(ctx, f"read_dedisp_block-raised:{type(exc).__name__}@{exc_site(exc)}", regime1, fmt_exc(exc), one)
             # a request whose dispersed samples do not all exist must be refused, not filled with something else
-            for st_bad, m_bad in ((hi1 - 1, 3), (lo1 - 1, 2)):
-                if 0 <= st_bad < n:
+            # one sample past the top for the channel with the largest delay / one sample before 0 for the one with the smallest
+            for st_bad, m_bad in ((n - int(d1.max()) - 1, 3), (-int(d1.min()) - 1, 2)):
+                if 0 <= st_bad < n and (st_bad + int(d1.max()) + m_bad > n or st_bad + int(d1.min()) < 0):
                     ctx.count("read_dedisp_out_of_range_requests")
                     try:
                         bb = fil.read_dedisp_block(st_bad, m_bad, dm)
